@@ -31,7 +31,7 @@ def corpus():
 
 
 def generate(rng, tier):
-    n = 1200 if tier == "quick" else 40000
+    n = 3000 if tier == "quick" else 40000
     cases = []
     for i in range(n):
         cases.append(updfam.gen_case(rng, with_includes=(rng.random() < 0.25)))
